@@ -629,7 +629,10 @@ pub fn vx_next_archetypes<R: Registry>(seq: &mut VxSeq, len: &mut usize) -> (r: 
             // proved of the real ArchetypesVisitor::visit_seq in unit archs (C13.deserialize.wf): the table
             // set is well formed -- every table under its own key, one table per component set
             r is Ok && r->Ok_0 is Some ==> vx_single_table(r->Ok_0->0@)
-                && (forall|k: archetype::IdentifierRef<R>| r->Ok_0->0@.dom().contains(k) ==> (#[trigger] r->Ok_0->0@[k]).wf() && r->Ok_0->0@[k].key() == k) { unimplemented!() }
+                && (forall|k: archetype::IdentifierRef<R>| r->Ok_0->0@.dom().contains(k) ==> (#[trigger] r->Ok_0->0@[k]).wf() && r->Ok_0->0@[k].key() == k),
+            // proved there as C13.deserialize.len_is_row_count (the counter starts at 0): the entity
+            // count handed to the world is the number of rows of all tables read
+            *old(len) == 0 && r is Ok && r->Ok_0 is Some ==> *final(len) == vx_total_rows(r->Ok_0->0@) { unimplemented!() }
 #[verifier::external_body]
 pub fn vx_next_allocator<R: Registry>(seq: &mut VxSeq, archetypes: &Archetypes<R>) -> (r: Result<Option<Allocator<R>>, VxErr>)
     ensures *final(seq) == vx_seq_next(*old(seq)),
@@ -638,7 +641,9 @@ pub fn vx_next_allocator<R: Registry>(seq: &mut VxSeq, archetypes: &Archetypes<R
             // is keyed and whose tables are well formed): the allocator is well formed, agrees with
             // every stored row and accepts nothing else
             (forall|k: archetype::IdentifierRef<R>| archetypes@.dom().contains(k) ==> (#[trigger] archetypes@[k]).wf() && archetypes@[k].key() == k)
-                && r is Ok && r->Ok_0 is Some ==> r->Ok_0->0.wf() && vx_tables_ok(archetypes@, &r->Ok_0->0) && vx_ids_stored(archetypes@, &r->Ok_0->0) { unimplemented!() }
+                && r is Ok && r->Ok_0 is Some ==> r->Ok_0->0.wf() && vx_tables_ok(archetypes@, &r->Ok_0->0) && vx_ids_stored(archetypes@, &r->Ok_0->0)
+                    // C13.deserialize.count: as many active slots as stored rows
+                    && r->Ok_0->0.active_count() == vx_total_rows(archetypes@) { unimplemented!() }
 #[verifier::external_body]
 pub fn vx_next_resources<T>(seq: &mut VxSeq) -> (r: Result<Option<VxResDe<T>>, VxErr>)
     ensures *final(seq) == vx_seq_next(*old(seq)),
@@ -889,7 +894,8 @@ def build():
                     ("C06.world.built_from_stream", "r is Ok ==> r->Ok_0.archetypes == vx_seq_archs::<Registry>(seq) && r->Ok_0.len == vx_seq_len(seq)"),
                     ("C11.world.allocator_from_stream", "r is Ok ==> r->Ok_0.entity_allocator == vx_seq_alloc::<Registry>(vx_seq_next(seq))"),
                     ("C15.deserialize.resources", "r is Ok ==> r->Ok_0.resources == vx_seq_res::<Resources>(vx_seq_next(vx_seq_next(seq)))"),
-                    ("C13.deserialize.world_wf_but_len", "r is Ok ==> r->Ok_0.entity_allocator.wf() && vx_tables_ok(r->Ok_0.archetypes@, &r->Ok_0.entity_allocator) && vx_ids_stored(r->Ok_0.archetypes@, &r->Ok_0.entity_allocator) && vx_single_table(r->Ok_0.archetypes@)")],
+                    ("C13.deserialize.world_wf", "r is Ok ==> r->Ok_0.wf()"),
+                    ("C13.deserialize.len", "r is Ok ==> r->Ok_0.len == r->Ok_0.entity_allocator.active_count() && r->Ok_0.len == vx_total_rows(r->Ok_0.archetypes@)")],
            props=["C18", "C06", "C11", "C15", "C13"]),
     ])
 
